@@ -1,6 +1,7 @@
 import TantivyModel.Proofs.GrammarCharsPrintList
 import TantivyModel.Proofs.GrammarCharsPhrase
 import TantivyModel.Proofs.GrammarCharsField
+import TantivyModel.Proofs.GrammarCharsSfx
 namespace TantivyModel.Grammar.Chars
 open TantivyModel.Grammar
 
@@ -112,13 +113,16 @@ theorem goodOpd_not (g : Bool) (k : Nat) (o : Opd) (ho : GoodOpd g o) : GoodOpd 
     simp only [notOpd, List.length_cons, List.length_append]
     omega
 
-/-- the well-formed fragment: plain words, double-quoted phrases without escapes, either of them with a field prefix `name:`, `NOT x` of a well-formed operand, and parenthesised lists of well-formed operands with
+/-- the well-formed fragment: plain words, double-quoted phrases without escapes (optionally with a slop `~n` or the prefix star), either of them with a field prefix `name:`, `NOT x` of a well-formed operand, and parenthesised lists of well-formed operands with
     markers, AND/OR and any layout -/
 inductive WFOpd : Opd → Prop where
   | word (w : Str) (hw : PlainWord w) : WFOpd (wordOpd w)
   | phrase (body : Str) (hb : PhraseBody body) : WFOpd (phraseOpd body)
   | fieldWord (f w : Str) (hf : PlainWord f) (hw : PlainWord w) : WFOpd (fieldWordOpd f w)
   | fieldPhrase (f body : Str) (hf : PlainWord f) (hb : PhraseBody body) : WFOpd (fieldPhraseOpd f body)
+  | phraseSfx (body : Str) (x : Sfx) (hb : PhraseBody body) (hx : WFSfx x) : WFOpd (phraseSfxOpd body x)
+  | fieldPhraseSfx (f body : Str) (x : Sfx) (hf : PlainWord f) (hb : PhraseBody body) (hx : WFSfx x) :
+      WFOpd (fieldPhraseSfxOpd f body x)
   | not (k : Nat) (o : Opd) (ho : WFOpd o) : WFOpd (notOpd k o)
   | group (lead : Nat) (occ : Option Occur) (o : Opd) (more : List PItem) (k : Nat)
       (ho : WFOpd o) (hm : ∀ it ∈ more, WFOpd it.opd) : WFOpd (groupOpd lead occ o more k)
@@ -129,6 +133,8 @@ theorem wf_good (g : Bool) (o : Opd) (h : WFOpd o) : GoodOpd g o := by
   | phrase body hb => exact goodOpd_phrase g body hb
   | fieldWord f w hf hw => exact goodOpd_fieldWord g f w hf hw
   | fieldPhrase f body hf hb => exact goodOpd_fieldPhrase g f body hf hb
+  | phraseSfx body x hb hx => exact goodOpd_phraseSfx g body x hb hx
+  | fieldPhraseSfx f body x hf hb hx => exact goodOpd_fieldPhraseSfx g f body x hf hb hx
   | not k o _ ih => exact goodOpd_not g k o ih
   | group lead occ o more k _ _ iho ihm => exact goodOpd_group g lead occ o more k iho ihm
 
